@@ -89,6 +89,16 @@ package smtp
 //@   ensures @C08 idempotent: old(c.session) == nil ==> c.cbLogout == old(c.cbLogout)
 //@   ensures @C07 pipe-not-left-open: old(c.bdatPipe) != nil ==> old(c.bdatPipe).state != 0 && (old(old(c.bdatPipe).state) == 0 ==> old(c.bdatPipe).state == 1)
 
+//@ contract replyText(s) (r)
+//@   prop C04 C19
+//@   ensures @C04 result-can-be-quoted-in-a-reply: replyText(r) && noCRLF(r)
+//@   ensures @C04 clean-text-is-kept: (forall k :: 0 <= k && k < len(s) ==> (s[k] >= 32 && s[k] != 127) || s[k] == 9) ==> r == s
+//@   ensures len(r) == len(s)
+//@   loop 1:
+//@     invariant 0 <= i && i <= len(s) && (forall k :: 0 <= k && k < i ==> (s[k] >= 32 && s[k] != 127) || s[k] == 9)
+//@   loop 2:
+//@     invariant 0 <= i && i <= len(b) && len(b) == len(s) && !wasalloc(b) && (forall k :: 0 <= k && k < i ==> (b[k] >= 32 && b[k] != 127) || b[k] == 9)
+
 //@ contract (*Conn).writeResponse(c, code, enhCode, text)
 //@   prop C04 C17
 //@   requires c != nil && c.server != nil && c.conn != nil && c.text != nil
@@ -189,6 +199,8 @@ package smtp
 //@   ensures @C08 session-kept-or-created: old(c.session) != nil ==> c.session == old(c.session) && c.cbNew == old(c.cbNew)
 //@   ensures @C08 no-logout: c.cbLogout == old(c.cbLogout)
 //@   ensures no-other-callbacks: c.cbMail == old(c.cbMail) && c.cbRcpt == old(c.cbRcpt) && c.cbData == old(c.cbData)
+//@   loop 1:
+//@     invariant @C04 mechanism-list-stays-clean: replyText(authCap) && (forall i :: 0 <= i && i < len(mechs) ==> replyText(mechs[i]))
 
 //@ contract parseHelloArgument(arg) (domain, err)
 //@   prop C03 C19
